@@ -152,6 +152,18 @@ PROPS["C04"] = dict(
     trusted=COMMON_TRUST,
 )
 
+PROPS["C18"] = dict(
+    units=[("verus", "addr")],
+    explanation="The three text parsers are verified against a reference reading of the split text: MacAddress::from_str accepts exactly 6 colon-separated groups that are "
+                "hex octets and stores them in order; Ipv4Address::from_str exactly 4 dot-separated decimal octets; Ipv6Address::from_str splits at the (only) '::' into head and "
+                "tail groups, requires 8 groups without '::' and at most 7 with it, every group 1-4 hex digits, and stores head groups at the front, tail groups at the back and "
+                "zeros between (RFC 4291 section 2.2 forms 1 and 2, '::' leading, trailing or in the middle); all array indexing in bounds for every input.",
+    not_covered=["Display (format!) and therefore the Display-then-from_str identity", "that str::find/split/from_str_radix/parse have their documented meaning (shims over uninterpreted spec functions)",
+                 "rejection of texts the reference also rejects is only stated for group count and invalid groups"],
+    assumptions=["std string operations (find, slicing, split, contains, from_str_radix, parse, chars().all) behave as documented"],
+    trusted=COMMON_TRUST,
+)
+
 PROPS["C19"] = dict(
     units=[("kani", "pcapcodec")],
     explanation="Global and record header codecs verified on all 24/16 header bytes: accepted magics, little-endian field layout, encode(decode(b)) == b; short buffers are errors.",
